@@ -160,3 +160,51 @@ def describe(exc: BaseException) -> str:
     if exc.__cause__ is not None:
         text += "+cause:" + type(exc.__cause__).__qualname__
     return "X:" + text.replace(",", ";").replace(" ", "_").replace("=", "~")[:100]
+
+
+# ------------------------------------------------------------------------------------------------------------------
+# RETURNED objects that look like errors (errors as values): the body `return`s them, every waiter must receive them as
+# a VALUE.  Shapes: 0 an Exception instance with a non-trivial constructor, 1 a BaseException instance, 2 a wrapper object
+# around an error (in the way of cashews' own RaiseException, but a class of the caller's), 3 a plain Exception instance.
+
+class StopSignal(BaseException):
+    pass
+
+
+class ErrorValue:
+    """a result type that carries an error"""
+
+    def __init__(self, error, attempt):
+        self.error = error
+        self.attempt = attempt
+
+
+NVALUES = 4
+
+
+def value_code(shape: int, x: int) -> int:
+    return 9000 + 100 * (shape % NVALUES) + x
+
+
+def is_exception_instance(shape: int) -> bool:
+    """`isinstance(value, Exception)` for the value of this shape (what `cache` / `early` refuse to store)"""
+    return shape % NVALUES in (0, 3)
+
+
+def make_value(shape: int, x: int):
+    shape %= NVALUES
+    if shape == 0:
+        return KwOnlyError(status=400 + x, body={"probe": x})
+    if shape == 1:
+        return StopSignal("stop", x)
+    if shape == 2:
+        return ErrorValue(ConnectionError(f"peer {x} went away"), x)
+    return SfErr0(f"reported, not raised {x}")
+
+
+def observe_value(v) -> tuple:
+    if isinstance(v, BaseException):
+        return ("exception-object",) + observe(v)
+    if isinstance(v, ErrorValue):
+        return ("ErrorValue", observe(v.error), repr(v.attempt))
+    return ("other", type(v).__qualname__, repr(v)[:80])
